@@ -4,6 +4,8 @@ Metamorphic inequality oracle on the asan flavour: every perturbation of the
 phrase inside the documented significant window, and every perturbation of the
 setting that changes the canonical setting part of the result, must change the
 digest."""
+import os
+
 from .. import common, gen, pool, rt
 from ..pool import Death, Timeout
 
@@ -164,9 +166,9 @@ def perturb(rng, m, base, i):
 
 
 def do_job(job):
-    m, cands, base, positions, nz = job
+    m, cands, base, positions, nz = job[:5]
     acc = common.Acc()
-    w = rt.vw(FL)
+    w = pool.Worker(job[5]) if len(job) > 5 else rt.vw(FL)
     rng = rt.rng_for(nz, "pert")
     setup = [rt.obj_line(0, align=4)]
     # entry point and argument placement vary per job: separate buffers, or phrase and setting kept in the
@@ -184,11 +186,15 @@ def do_job(job):
             break
         acc.count("base_rejected")
     if H is None:
+        if len(job) > 5:
+            w.stop()
         return acc
     rm = gen.result_method(s, len(base)) or m
     sp = gen.split_hash(rm, H)
     if not sp:
         acc.count("base_unsplittable")
+        if len(job) > 5:
+            w.stop()
         return acc
     Hset, Hdig, alpha = sp
     lines = []
@@ -283,6 +289,8 @@ def do_job(job):
                               rt.replay_obj(FL, setup + [cl(base, s), ln]))
     acc.sample({"method": m, "setting": s.decode("latin1"), "base_len": len(base),
                 "positions": len(positions), "hash": H.decode("latin1")}, cap=2)
+    if len(job) > 5:
+        w.stop()
     return acc
 
 
@@ -374,11 +382,49 @@ def do_cost_grid(args):
     return acc
 
 
+# builds in which a method is compiled without the sibling whose code it shares (code kept only "#if INCLUDE_x")
+CONFIGS = [("yescrypt-no-scrypt", ["yescrypt", "gost_yescrypt"]), ("scrypt-only", ["scrypt"]), ("gost-only", ["gost_yescrypt"]),
+           ("sha1crypt-sunmd5", ["sha1crypt", "sunmd5"])]
+CONFIG_FIXED = {"yescrypt": [b"$y$.5/$saltsalt", b"$y$j5.$c2FsdHNhbHQ", b"$y$/5.$c2FsdHNhbHQ"],
+                "gost_yescrypt": [b"$gy$.5/$saltsalt", b"$gy$j5.$c2FsdHNhbHQ"], "scrypt": [b"$7$5/..../....saltsalt"],
+                "sha1crypt": [b"$sha1$20$saltsalt"], "sunmd5": [b"$md5,rounds=5$saltsalt$"]}
+
+
+def do_config(args):
+    from . import C19
+    import shutil
+    (name, en), seed, tier = args
+    bname, en, exe, err, _ = C19.build_config((PID + "-" + name, en, None, "-O1 -g -fno-omit-frame-pointer "
+                                               "-fsanitize=address,undefined -fno-sanitize-recover=all"))
+    acc = common.Acc()
+    if exe is None:
+        acc.inconc("configuration %s does not build: %s" % (name, err[-300:]))
+        return acc
+    try:
+        rng = rt.rng_for(seed, PID, "config", name)
+        for m in en:
+            for s in CONFIG_FIXED.get(m, []):
+                for blen in (511, 130):
+                    lo, hi = (1, 255)
+                    base = bytes(rng.randint(lo, hi) for _ in range(blen))
+                    positions = sorted(set(rng.sample(range(blen), min(blen, 40)) + [0, 63, 64, 65, blen - 1]))
+                    acc.merge(do_job((m, [(s, "config")], base, positions, rng.getrandbits(32), exe)))
+                    acc.count("configuration_jobs")
+    finally:
+        shutil.rmtree(os.path.dirname(exe), ignore_errors=True)
+    for v in acc.viol:
+        v["key"] = v["key"] + "@" + name
+        v["detail"] = "[--enable-hashes=%s] %s" % (",".join(en), v["detail"])
+    return acc
+
+
 def run(tier):
     run_ = common.Run(PID, tier, "exploration")
     rt.prepare([FL, "opt"])
     jobs = make_jobs(run_.seed, tier)
     for acc in pool.pmap(do_job, jobs):
+        run_.merge(acc)
+    for acc in pool.pmap(do_config, [(c, run_.seed, tier) for c in CONFIGS]):
         run_.merge(acc)
     for acc in pool.pmap(do_sweep, make_sweep_jobs(run_.seed, tier)):
         run_.merge(acc)
@@ -387,6 +433,8 @@ def run(tier):
     a = run_.acc
     cov = {
         "cost_grid_hashes": int(a.n.get("cost_grid_hashes", 0)),
+        "jobs_in_other_hash_selections": int(a.n.get("configuration_jobs", 0)),
+        "other_hash_selections": [n_ + "=" + ",".join(h_) for n_, h_ in CONFIGS],
         "rule": "base = (method, accepted setting, random phrase of 511 and of a shorter length); perturbations: bit "
                 "flip, byte replacement and truncation at each chosen byte position of the documented significant "
                 "window (8 descrypt, 128 bigcrypt, 72 bcrypt, all otherwise), extension, and replacement of every "
